@@ -81,6 +81,14 @@ def run_case(case):
     else:
         csr_bus = csr.Interface(addr_width=caw, data_width=cdw, path=("csr",))
         csr_bus.memory_map = MemoryMap(addr_width=caw, data_width=cdw)
+    from vmon.simkit import decoy
+
+    def twin():
+        cb = csr.Interface(addr_width=caw, data_width=cdw, path=("twin",))
+        cb.memory_map = MemoryMap(addr_width=caw, data_width=cdw)
+        return WishboneCSRBridge(cb, data_width=wdw)
+
+    decoy(rng, twin)
     dut = WishboneCSRBridge(csr_bus, data_width=wdw)
     wb = dut.wb_bus
     waw = len(wb.adr)
